@@ -1,5 +1,7 @@
 //! Shared components of the runtime-monitoring harness for ypo/flute.
+pub mod alloc;
 pub mod gen;
+pub mod hostile;
 pub mod mwriter;
 pub mod oracle;
 pub mod report;
